@@ -320,6 +320,7 @@ class Normaliser:
         self.module = fi.module
         self.counter = 0
         self.inlined = []
+        self.keep_calls = set()         # names of module-level helpers that are NOT inlined (the rule analyses them as functions)
 
     # ---- helper resolution ---------------------------------------------------------------------------
     def resolve(self, call, local_funcs, stack):
@@ -327,6 +328,8 @@ class Normaliser:
         target = None
         bound_self = None
         if isinstance(f, ast.Name):
+            if f.id in self.keep_calls:
+                return None
             if f.id in local_funcs:
                 target = local_funcs[f.id]
             elif f.id in self.module.funcs and '.' not in f.id:
@@ -1550,6 +1553,14 @@ def normalised(repo, fi):
 
 def nfunc(repo, rel, qualname):
     return normalised(repo, repo.func(rel, qualname))
+
+
+def normalised_keeping(repo, fi, names):
+    """normal form of fi in which calls of the module-level helpers `names` stay calls (not cached)"""
+    nz = Normaliser(repo, fi)
+    nz.keep_calls = set(names)
+    node = nz.run()
+    return NormFunc(fi, node, nz.inlined, nz.memo_issues)
 
 
 def write_inventory(repo, files):
